@@ -485,4 +485,37 @@ def rule_g(ctx: Ctx) -> None:
                 'processing a member type; producers push only into an empty slot.')
 
 
-RULES = [rule_a, rule_b, rule_c, rule_d, rule_e, rule_f, rule_g]
+def rule_h(ctx: Ctx) -> None:
+    """A complex type with simple content answers questions about its value space through the *same-named* member of its content
+    type (facet lookup along the base chain, whitespace, validity, decoding): the callers in simple_types.py rely on that."""
+    rule = 'C02.h'
+    ct = ctx.idx.cls('xmlschema.validators.complex_types.XsdComplexType')
+    st = ctx.idx.cls('xmlschema.validators.simple_types.XsdSimpleType')
+    n = 0
+    for name, m in sorted(ct.methods.items()):
+        if isinstance(m.node, ast.Lambda) or st.find_method(name) is None:
+            continue
+        # methods that exist on the simple type too and answer from self.content under the simple-content guard
+        rets = [r for r in ast.walk(m.node) if isinstance(r, ast.Return) and r.value is not None
+                and any(isinstance(x, ast.Attribute) and text(x.value) == 'self.content' for x in ast.walk(r.value))]
+        if not rets:
+            continue
+        enc = enclosing_map(m.node)
+        for r in rets:
+            guarded = any(isinstance(a, ast.If) and 'isinstance(self.content, XsdSimpleType)' in text(a.test) for a in ancestors(r, enc)) \
+                or any(isinstance(a, ast.IfExp) for a in ast.walk(r.value))
+            if not guarded and name not in ('get_facet',):
+                continue
+            n += 1
+            v = r.value
+            same = isinstance(v, ast.Call) and isinstance(v.func, ast.Attribute) and text(v.func.value) == 'self.content' and v.func.attr == name
+            ctx.ob(rule, f'XsdComplexType.{name}: with simple content the answer is `self.content.{name}(…)` of the content type', m.loc(r), same,
+                   '' if same else f'returns `{text(v)[:60]}`: not the same-named member of the content type - e.g. a facet lookup that reads only the '
+                   'local `facets` mapping misses the whiteSpace/pattern facets inherited along the base chain, so a pattern is tested on '
+                   'un-normalised text', key=f'XsdComplexType.{name}|delegates|{text(v)[:50]}')
+    ctx.floor(rule, 'same-name delegations of XsdComplexType to its simple content', n, 5)
+    ctx.explain('C02.h: every method of XsdComplexType that also exists on XsdSimpleType and answers from self.content under the '
+                'simple-content guard returns the call of the same-named member (forwarding of the arguments: C04.c).')
+
+
+RULES = [rule_a, rule_b, rule_c, rule_d, rule_e, rule_f, rule_g, rule_h]
